@@ -6,7 +6,7 @@ package types
 // What an accepted parameter set guarantees (C16). paramsOK is defined next to the keeper contracts; every
 // keeper function that consumes parameters assumes exactly this predicate and nothing more about them.
 // (C01 too: the price and share formulas are only sound for fees in their valid ranges)
-//@ func Params.Validate
+//@ func Params.Validate()
 //@   property C01, C16
 //@   returns err
 //@   ensures valid: err == nil ==> paramsOK(p)
@@ -15,13 +15,13 @@ package types
 // ---------------------------------------------------------------------------------------------
 // Genesis validation (C12): the recorded next sequence is above the sequence number of every exported pool, so that an
 // exported state (next sequence = highest sequence + 1) is accepted and a re-imported chain cannot reuse a pool number.
-//@ func ParseLptDenom
+//@ func ParseLptDenom(lptDenom)
 //@   property C12
 //@   trusted
 //@   returns seq, err
 //@   ensures parsed: err == nil ==> seq == uf("lpt_seq", lptDenom) && seq >= 0
 //@ end
-//@ func ValidateGenesis
+//@ func ValidateGenesis(data)
 //@   property C12
 //@   returns err
 //@   invariant #1 idx: rangeindex >= 0 - 1 && rangeindex < len(data.Pool)
